@@ -9,7 +9,7 @@ ssize_t g_dx, g_dy, g_sx, g_sy, g_mx, g_my, g_ex, g_ey;
 uint64_t g_dr, g_dg, g_db, g_da, g_sr, g_sg, g_sb, g_sa, g_mr, g_mg, g_mb, g_ma, g_er, g_eg, g_eb, g_ea;
 #include "x_color.c"
 #include "x_reshape.c"
-#define GH(T, n) { T in_##n; g_##n = in_##n; }
+#define GH(T, n) { T in_gh_##n; g_##n = in_gh_##n; }
 #define IN_SHAPE_D GH(ssize_t, dw) GH(ssize_t, dh) GH(bool, dalpha) GH(uint8_t, dcw)
 #define IN_SHAPE_S GH(ssize_t, sw) GH(ssize_t, sh) GH(bool, salpha) GH(uint8_t, scw)
 #define IN_K GH(size_t, k) GH(uint64_t, v) GH(uint64_t, v1) GH(uint64_t, v2) GH(size_t, mk)
